@@ -74,7 +74,7 @@ def main():
     try:
         for p in props:
             t0 = time.time()
-            rc, o = sh(f"/verif/bin/symgo check -prop {p} -tier {tier} -noevidence", cwd="/verif", timeout=7200)
+            rc, o = sh(f"/verif/bin/symgo check -prop {p} -tier {tier} -noevidence -timeout 15m", cwd="/verif", timeout=7200)
             lines = [l for l in o.splitlines() if l.startswith(("VIOLATION", "INCONCLUSIVE", "symgo:", "  harness=", "  inputs="))]
             results[p] = {"tier": tier, "exit": rc, "detected": rc == 1, "wall_s": round(time.time()-t0, 1), "output": lines[:12]}
             print(f"[{sid}] check {p} {tier}: exit={rc} detected={rc==1}")
@@ -85,7 +85,7 @@ def main():
         assert o.strip() == "", "repo not restored: " + o
     meta["kept"] = True
     meta["checks"] = results
-    meta["ran"].append("git -C /repo apply patch.diff; /verif/bin/symgo check -prop <P> -tier <tier> -noevidence; git -C /repo checkout -- .")
+    meta["ran"].append("git -C /repo apply patch.diff; /verif/bin/symgo check -prop <P> -tier <tier> -noevidence -timeout 15m; git -C /repo checkout -- .")
     old = {}
     mp = os.path.join(out, "meta.json")
     if os.path.exists(mp):
